@@ -170,7 +170,7 @@ def schedules(ctx):
     G, H = 'GEOPHIRES', 'HIP-RA-X'
     if ctx.quick:
         combos = [(1, 1, G), (3, 2, H), (16, 4, G), (17, 16, G), (40, 16, H), (40, 32, G), (40, 1, G), (120, 16, H), (300, 16, G),
-                  (40, 2, H), (16, 32, G), (300, 8, H), (300, 32, H)]
+                  (40, 2, H), (16, 32, G), (300, 8, H), (300, 32, H), (320, 4, H)]
     else:
         combos = [(i, w, G if (i + w) % 3 else H) for i in (1, 3, 16, 17, 40) for w in (1, 2, 4, 16, 32)] + \
                  [(300, 16, G), (300, 32, H), (300, 4, G), (1000, 16, G), (1000, 32, H), (120, 16, G), (120, 2, H),
@@ -184,6 +184,8 @@ def schedules(ctx):
             failure = 0.9 if program == H or iters == 40 else 0.3
         elif not ctx.quick and iters in (300, 1000) and w == 32:
             failure = 0.3
+        elif iters == 320:
+            failure = 0.3          # many iterations AND failures: batching / early-exit effects need both
         kinds = None
         if iters >= 100:
             kinds = ['uniform', 'normal', 'triangular', 'lognormal', 'binomial'] if program == 'GEOPHIRES' else \
